@@ -32,6 +32,7 @@ var (
 
 type stats struct {
 	Files, SyncImports, GoStmts, NetCalls, MapRanges, MapRangesSkipped, HarnessFiles int
+	Selects, SelectsSkipped                                                          int
 }
 
 func main() {
@@ -125,9 +126,11 @@ func must(err error) {
 }
 
 type mapSite struct {
-	File    string `json:"file"`
-	Line    int    `json:"line"`
-	KeyType string `json:"key_type"` // printable in that file, "" if not nameable
+	File    string   `json:"file"`
+	Line    int      `json:"line"`
+	KeyType string   `json:"key_type"` // printable in that file, "" if not nameable
+	Kind    string   `json:"kind"`     // "" map range, "select"
+	Select  []string `json:"select"`   // per comm clause: elem type of a binding receive, "-" non-binding receive, "" send/default
 }
 
 func loadMapSites(path string) map[string]map[int]mapSite {
@@ -143,7 +146,11 @@ func loadMapSites(path string) map[string]map[int]mapSite {
 		if r[s.File] == nil {
 			r[s.File] = map[int]mapSite{}
 		}
-		r[s.File][s.Line] = s
+		k := s.Line
+		if s.Kind == "select" {
+			k = -s.Line // selects and map ranges may share a line; keep them apart
+		}
+		r[s.File][k] = s
 	}
 	return r
 }
@@ -257,6 +264,32 @@ func rewriteList(fset *token.FileSet, list []ast.Stmt, st *stats, changed, needR
 				*needRT = true
 				st.GoStmts++
 			}
+			if sel, ok := x.Stmt.(*ast.SelectStmt); ok && !isTest && sites != nil {
+				if site, ok := sites[-fset.Position(sel.Pos()).Line]; ok {
+					if r := rewriteSelect(sel, site, x.Label.Name); r != nil {
+						list[i] = r
+						*changed = true
+						*needRT = true
+						st.Selects++
+					} else if countComm(sel) >= 2 {
+						st.SelectsSkipped++
+					}
+				}
+			}
+		case *ast.SelectStmt:
+			if sites == nil || isTest {
+				continue
+			}
+			if site, ok := sites[-fset.Position(x.Pos()).Line]; ok {
+				if r := rewriteSelect(x, site, ""); r != nil {
+					list[i] = r
+					*changed = true
+					*needRT = true
+					st.Selects++
+				} else if countComm(x) >= 2 {
+					st.SelectsSkipped++
+				}
+			}
 		case *ast.RangeStmt:
 			if sites == nil {
 				continue
@@ -363,3 +396,135 @@ func rewriteMapRange(r *ast.RangeStmt, site mapSite) ast.Stmt {
 }
 
 var _ = sort.Strings
+
+func countComm(s *ast.SelectStmt) int {
+	n := 0
+	for _, c := range s.Body.List {
+		if c.(*ast.CommClause).Comm != nil {
+			n++
+		}
+	}
+	return n
+}
+
+func ident(name string) *ast.Ident { return ast.NewIdent(name) }
+
+func intLit(n int) ast.Expr { return &ast.BasicLit{Kind: token.INT, Value: strconv.Itoa(n)} }
+
+// rewriteSelect replaces a select with >= 2 communication cases by: seeded
+// polling of the cases one at a time (non-blocking), then - if none was ready
+// and there is no default - the original blocking select, then a switch that
+// runs the original case bodies. Go's own choice among several ready cases is
+// uniformly random and cannot be replayed; this one is a function of the run
+// seed. Channel operands are evaluated once, as in the original.
+func rewriteSelect(s *ast.SelectStmt, site mapSite, label string) ast.Stmt {
+	if countComm(s) < 2 || len(site.Select) != len(s.Body.List) {
+		return nil
+	}
+	id := strconv.Itoa(site.Line)
+	caseVar := ident("verifcase" + id)
+	var pre []ast.Stmt
+	var pollCases, blockCases, bodyCases []ast.Stmt
+	hasDefault := false
+	ncomm := 0
+	for k, cc := range s.Body.List {
+		c := cc.(*ast.CommClause)
+		ks := strconv.Itoa(k)
+		if c.Comm == nil {
+			hasDefault = true
+			bodyCases = append(bodyCases, &ast.CaseClause{List: nil, Body: c.Body})
+			continue
+		}
+		ncomm++
+		chVar := ident("verifch" + id + "_" + ks)
+		var comm func() ast.Stmt // builds a fresh comm statement for polling / blocking
+		var prologue []ast.Stmt
+		switch st := c.Comm.(type) {
+		case *ast.SendStmt:
+			pre = append(pre, &ast.AssignStmt{Lhs: []ast.Expr{chVar}, Tok: token.DEFINE, Rhs: []ast.Expr{st.Chan}})
+			val := st.Value
+			comm = func() ast.Stmt { return &ast.SendStmt{Chan: chVar, Value: val} }
+		case *ast.ExprStmt:
+			ue, ok := st.X.(*ast.UnaryExpr)
+			if !ok || ue.Op != token.ARROW {
+				return nil
+			}
+			pre = append(pre, &ast.AssignStmt{Lhs: []ast.Expr{chVar}, Tok: token.DEFINE, Rhs: []ast.Expr{ue.X}})
+			comm = func() ast.Stmt { return &ast.ExprStmt{X: &ast.UnaryExpr{Op: token.ARROW, X: chVar}} }
+		case *ast.AssignStmt:
+			if len(st.Rhs) != 1 {
+				return nil
+			}
+			ue, ok := st.Rhs[0].(*ast.UnaryExpr)
+			if !ok || ue.Op != token.ARROW {
+				return nil
+			}
+			et := site.Select[k]
+			if et == "" || et == "?" || et == "-" {
+				return nil
+			}
+			etx, err := parser.ParseExpr(et)
+			if err != nil {
+				return nil
+			}
+			pre = append(pre, &ast.AssignStmt{Lhs: []ast.Expr{chVar}, Tok: token.DEFINE, Rhs: []ast.Expr{ue.X}})
+			vVar := ident("verifv" + id + "_" + ks)
+			okVar := ident("verifok" + id + "_" + ks)
+			pre = append(pre, &ast.DeclStmt{Decl: &ast.GenDecl{Tok: token.VAR, Specs: []ast.Spec{&ast.ValueSpec{Names: []*ast.Ident{vVar}, Type: etx}}}})
+			pre = append(pre, &ast.DeclStmt{Decl: &ast.GenDecl{Tok: token.VAR, Specs: []ast.Spec{&ast.ValueSpec{Names: []*ast.Ident{okVar}, Type: ident("bool")}}}})
+			pre = append(pre, &ast.AssignStmt{Lhs: []ast.Expr{ident("_"), ident("_")}, Tok: token.ASSIGN, Rhs: []ast.Expr{vVar, okVar}})
+			comm = func() ast.Stmt {
+				return &ast.AssignStmt{Lhs: []ast.Expr{vVar, okVar}, Tok: token.ASSIGN, Rhs: []ast.Expr{&ast.UnaryExpr{Op: token.ARROW, X: chVar}}}
+			}
+			// bind the original names
+			temps := []ast.Expr{vVar, okVar}
+			var lhs, rhs []ast.Expr
+			for j, l := range st.Lhs {
+				if idn, isID := l.(*ast.Ident); isID && idn.Name == "_" {
+					continue
+				}
+				lhs = append(lhs, l)
+				rhs = append(rhs, temps[j])
+			}
+			if len(lhs) > 0 {
+				prologue = append(prologue, &ast.AssignStmt{Lhs: lhs, Tok: st.Tok, Rhs: rhs})
+			}
+		default:
+			return nil
+		}
+		set := &ast.AssignStmt{Lhs: []ast.Expr{caseVar}, Tok: token.ASSIGN, Rhs: []ast.Expr{intLit(k)}}
+		pollCases = append(pollCases, &ast.CaseClause{List: []ast.Expr{intLit(ncomm - 1)}, Body: []ast.Stmt{
+			&ast.SelectStmt{Body: &ast.BlockStmt{List: []ast.Stmt{
+				&ast.CommClause{Comm: comm(), Body: []ast.Stmt{set}},
+				&ast.CommClause{Comm: nil},
+			}}},
+		}})
+		blockCases = append(blockCases, &ast.CommClause{Comm: comm(), Body: []ast.Stmt{
+			&ast.AssignStmt{Lhs: []ast.Expr{caseVar}, Tok: token.ASSIGN, Rhs: []ast.Expr{intLit(k)}}}})
+		bodyCases = append(bodyCases, &ast.CaseClause{List: []ast.Expr{intLit(k)}, Body: append(prologue, c.Body...)})
+	}
+	iVar := ident("verifi" + id)
+	out := append([]ast.Stmt{}, pre...)
+	out = append(out, &ast.AssignStmt{Lhs: []ast.Expr{caseVar}, Tok: token.DEFINE, Rhs: []ast.Expr{&ast.UnaryExpr{Op: token.SUB, X: intLit(1)}}})
+	out = append(out, &ast.RangeStmt{Key: ident("_"), Value: iVar, Tok: token.DEFINE,
+		X: &ast.CallExpr{Fun: sel(rtName, "SelectOrder"), Args: []ast.Expr{intLit(ncomm)}},
+		Body: &ast.BlockStmt{List: []ast.Stmt{
+			&ast.SwitchStmt{Tag: iVar, Body: &ast.BlockStmt{List: pollCases}},
+			&ast.IfStmt{Cond: &ast.BinaryExpr{X: caseVar, Op: token.GEQ, Y: intLit(0)}, Body: &ast.BlockStmt{List: []ast.Stmt{&ast.BranchStmt{Tok: token.BREAK}}}},
+		}}})
+	if !hasDefault {
+		out = append(out, &ast.IfStmt{Cond: &ast.BinaryExpr{X: caseVar, Op: token.LSS, Y: intLit(0)},
+			Body: &ast.BlockStmt{List: []ast.Stmt{&ast.SelectStmt{Body: &ast.BlockStmt{List: blockCases}}}}})
+	}
+	if !hasDefault {
+		// keeps the switch a terminating statement whenever the original select was one
+		bodyCases = append(bodyCases, &ast.CaseClause{List: nil, Body: []ast.Stmt{
+			&ast.ExprStmt{X: &ast.CallExpr{Fun: ident("panic"), Args: []ast.Expr{&ast.BasicLit{Kind: token.STRING, Value: strconv.Quote("verif: rewritten select fell through")}}}}}})
+	}
+	var final ast.Stmt = &ast.SwitchStmt{Tag: caseVar, Body: &ast.BlockStmt{List: bodyCases}}
+	if label != "" {
+		final = &ast.LabeledStmt{Label: ident(label), Stmt: final}
+	}
+	out = append(out, final)
+	return &ast.BlockStmt{List: out}
+}
